@@ -2,6 +2,7 @@ import MaddyVerif.Model.Queue
 import MaddyVerif.Model.QueueHop
 import MaddyVerif.Model.QueueRestart
 import MaddyVerif.Model.QueueErr
+import MaddyVerif.Model.QueueDup
 /-!
 # C01 — every queued recipient ends in exactly one terminal outcome
 
@@ -1407,5 +1408,319 @@ example : retryDecision 3 0 [.smtp 550 (4, 2, 2)] = false ∧ retryDecision 3 0 
     ∧ eraseEnh [.marker true, .smtp 550 (9, 0, 0)] = eraseEnh [.marker true, .smtp 550 (5, 1, 1)] := by decide
 
 end errclass
+
+/-! ## Round 9: addresses listed twice, status keys outside the envelope, the header -/
+section round9
+open MaddyVerif.QueueRestart MaddyVerif.QueueHop
+
+theorem mem_dedup (l : List Addr) (x : Addr) : x ∈ dedup l ↔ x ∈ l := by
+  induction l with
+  | nil => simp [dedup]
+  | cons r t ih =>
+    simp only [dedup, List.mem_cons, List.mem_filter, ih]
+    constructor
+    · rintro (h | ⟨h, _⟩)
+      · exact Or.inl h
+      · exact Or.inr h
+    · intro h
+      by_cases hx : x = r
+      · exact Or.inl hx
+      · rcases h with h | h
+        · exact Or.inl h
+        · exact Or.inr ⟨h, by simpa using hx⟩
+
+theorem dedup_nodup (l : List Addr) : (dedup l).Nodup := by
+  induction l with
+  | nil => simp [dedup]
+  | cons r t ih =>
+    simp only [dedup, List.nodup_cons, List.mem_filter]
+    exact ⟨by simp, ih.filter _⟩
+
+theorem dedup_of_nodup (l : List Addr) (h : l.Nodup) : dedup l = l := by
+  induction l with
+  | nil => rfl
+  | cons r t ih =>
+    have hc := List.nodup_cons.mp h
+    simp only [dedup, ih hc.2]
+    congr 1
+    apply List.filter_eq_self.mpr
+    intro x hx
+    simp only [bne_iff_ne, ne_eq]
+    intro hxr
+    exact hc.1 (hxr ▸ hx)
+
+/-- On a duplicate-free envelope the attempt is the attempt of `Model/Queue.lean`. -/
+theorem tryDeliveryD_eq (maxTries : Nat) (k : Kind) (dsn : Bool) (p : Plan) (m : Meta)
+    (hnd : m.to.Nodup) : tryDeliveryD maxTries k dsn p m = tryDelivery maxTries k dsn p m := by
+  unfold tryDeliveryD tryDelivery
+  rw [dedup_of_nodup m.to hnd]
+
+/-- Whatever the envelope listed (addresses twice, three times), the list the queue keeps for the
+next attempt is duplicate-free and names only addresses of the envelope: from the second attempt on
+every theorem about duplicate-free lists applies. -/
+theorem C01_pending_list_duplicate_free (maxTries : Nat) (k : Kind) (dsn : Bool) (p : Plan)
+    (m m' : Meta) (h : (tryDeliveryD maxTries k dsn p m).1 = some m') :
+    m'.to.Nodup ∧ ∀ x ∈ m'.to, x ∈ m.to := by
+  have hc := classify_spec maxTries (deliver k p m.to).1 (dedup m.to) (dedup_nodup m.to) ⟨m.tries, [], []⟩
+  simp only [List.nil_append] at hc
+  unfold tryDeliveryD at h
+  simp only at h
+  split at h
+  · cases h
+  · cases h
+    simp only
+    rw [hc.1]
+    refine ⟨(dedup_nodup m.to).filter _, ?_⟩
+    intro x hx
+    exact (mem_dedup m.to x).mp (List.mem_filter.mp hx).1
+
+/-- **C01 (abort or commit).** `deliver` calls `Commit` iff some ACCEPTED recipient has no error —
+for every accepted list (an address may occur any number of times) and every status map (keys that
+name nobody in the envelope included). -/
+theorem C01_commit_decision_iff (accepted : List Addr) (errs : Errs) :
+    commitDecision accepted errs = true ↔ ∃ r ∈ accepted, errs r = none := by
+  simp [commitDecision]
+
+/-- Entries of the status map under addresses that were not accepted (stale, converted, other-case
+forms; refused recipients) play no part. -/
+theorem C01_commit_decision_ignores_foreign_keys (accepted : List Addr) (errs errs' : Errs)
+    (h : ∀ r ∈ accepted, errs r = errs' r) :
+    commitDecision accepted errs = commitDecision accepted errs' := by
+  rw [Bool.eq_iff_iff, C01_commit_decision_iff, C01_commit_decision_iff]
+  constructor
+  · rintro ⟨r, hr, he⟩
+    exact ⟨r, hr, by rw [← h r hr]; exact he⟩
+  · rintro ⟨r, hr, he⟩
+    exact ⟨r, hr, by rw [h r hr]; exact he⟩
+
+/-- Listing an address twice does not change the decision: it is about the SET of accepted
+recipients, never about a count. -/
+theorem C01_commit_decision_dedup (accepted : List Addr) (errs : Errs) :
+    commitDecision (dedup accepted) errs = commitDecision accepted errs := by
+  have h1 := C01_commit_decision_iff (dedup accepted) errs
+  have h2 := C01_commit_decision_iff accepted errs
+  cases hA : commitDecision (dedup accepted) errs <;> cases hB : commitDecision accepted errs <;> simp_all
+  · obtain ⟨r, hr, he⟩ := h2
+    have := h1 r ((mem_dedup accepted r).mpr hr)
+    simp [he] at this
+  · obtain ⟨r, hr, he⟩ := h1
+    have := h2 r ((mem_dedup accepted r).mp hr)
+    simp [he] at this
+
+/-- The per-recipient errors `deliver` holds when it decides (after the body stage). -/
+def bodyErrs (k : Kind) (p : Plan) (to : List Addr) : Errs :=
+  let accepted := to.filter (fun r => (p.rcpt r).isOk)
+  let e1 : Errs := fun r => if r ∈ to ∧ !(p.rcpt r).isOk then some (p.rcpt r) else none
+  match k with
+  | .atomic => if !p.body.isOk then (fun r => if r ∈ accepted then some p.body else e1 r) else e1
+  | .partialD => fun r => if r ∈ accepted ∧ !(p.bodyRc r).isOk then some (p.bodyRc r) else e1 r
+
+def commits (evs : List Ev) : Bool :=
+  evs.any (fun e => match e with | .commit _ => true | _ => false)
+
+theorem commits_rcpts (p : Plan) (to : List Addr) :
+    commits (to.map (fun r => Ev.rcpt r (p.rcpt r))) = false := by
+  induction to with
+  | nil => rfl
+  | cons r t ih => simp only [commits] at ih ⊢; simp [ih]
+
+/-- The model's `deliver` takes exactly that decision, for EVERY recipient list — duplicates
+allowed — both kinds and every plan: `Commit` is called iff the session started and
+`commitDecision` says so. -/
+theorem C01_deliver_commits_iff (k : Kind) (p : Plan) (to : List Addr) :
+    commits (deliver k p to).2 =
+      (p.start.isOk && commitDecision (to.filter (fun r => (p.rcpt r).isOk)) (bodyErrs k p to)) := by
+  have hr := commits_rcpts p to
+  unfold commits at hr
+  unfold deliver
+  by_cases hc : p.commit.isOk = true <;> by_cases hs : p.start.isOk = true
+  · simp only [hs, Bool.not_true, Bool.false_eq_true, if_false, Bool.true_and]
+    by_cases he : (to.filter (fun r => (p.rcpt r).isOk)).isEmpty = true
+    · simp only [he, if_true]
+      have : to.filter (fun r => (p.rcpt r).isOk) = [] := by simpa using he
+      simp [commits, commitDecision, this, hr]
+    · simp only [he, if_false]
+      cases k with
+      | atomic =>
+        by_cases hb : p.body.isOk = true
+        · simp only [hb, Bool.not_true, Bool.false_eq_true, if_false, bodyErrs]
+          split
+          · rename_i h; (simp [commits, commitDecision, hr, hc] at h ⊢ <;> first | exact h | (obtain ⟨x, hx, hok, hn⟩ := h; exact ⟨x, hx, hok, by simp_all⟩) | (rename_i h2; obtain ⟨x, hx, hok, hn⟩ := h2; exact ⟨x, hx, hok, by simp_all⟩) | (simp_all; done) | grind)
+          · rename_i h
+            split <;> (simp [commits, commitDecision, hr, hc] at h ⊢ <;> first | exact h | (obtain ⟨x, hx, hok, hn⟩ := h; exact ⟨x, hx, hok, by simp_all⟩) | (rename_i h2; obtain ⟨x, hx, hok, hn⟩ := h2; exact ⟨x, hx, hok, by simp_all⟩) | (simp_all; done) | grind)
+        · simp only [hb, Bool.not_false, if_true, bodyErrs]
+          split
+          · rename_i h; (simp [commits, commitDecision, hr, hc] at h ⊢ <;> first | exact h | (obtain ⟨x, hx, hok, hn⟩ := h; exact ⟨x, hx, hok, by simp_all⟩) | (rename_i h2; obtain ⟨x, hx, hok, hn⟩ := h2; exact ⟨x, hx, hok, by simp_all⟩) | (simp_all; done) | grind)
+          · rename_i h
+            split <;> (simp [commits, commitDecision, hr, hc] at h ⊢ <;> first | exact h | (obtain ⟨x, hx, hok, hn⟩ := h; exact ⟨x, hx, hok, by simp_all⟩) | (rename_i h2; obtain ⟨x, hx, hok, hn⟩ := h2; exact ⟨x, hx, hok, by simp_all⟩) | (simp_all; done) | grind)
+      | partialD =>
+        simp only [bodyErrs]
+        split
+        · rename_i h; (simp [commits, commitDecision, hr, hc] at h ⊢ <;> first | exact h | (obtain ⟨x, hx, hok, hn⟩ := h; exact ⟨x, hx, hok, by simp_all⟩) | (rename_i h2; obtain ⟨x, hx, hok, hn⟩ := h2; exact ⟨x, hx, hok, by simp_all⟩) | (simp_all; done) | grind)
+        · rename_i h
+          split <;> (simp [commits, commitDecision, hr, hc] at h ⊢ <;> first | exact h | (obtain ⟨x, hx, hok, hn⟩ := h; exact ⟨x, hx, hok, by simp_all⟩) | (rename_i h2; obtain ⟨x, hx, hok, hn⟩ := h2; exact ⟨x, hx, hok, by simp_all⟩) | (simp_all; done) | grind)
+  · simp [hs, commits]
+  · simp only [hs, Bool.not_true, Bool.false_eq_true, if_false, Bool.true_and]
+    by_cases he : (to.filter (fun r => (p.rcpt r).isOk)).isEmpty = true
+    · simp only [he, if_true]
+      have : to.filter (fun r => (p.rcpt r).isOk) = [] := by simpa using he
+      simp [commits, commitDecision, this, hr]
+    · simp only [he, if_false]
+      cases k with
+      | atomic =>
+        by_cases hb : p.body.isOk = true
+        · simp only [hb, Bool.not_true, Bool.false_eq_true, if_false, bodyErrs]
+          split
+          · rename_i h; (simp [commits, commitDecision, hr, hc] at h ⊢ <;> first | exact h | (obtain ⟨x, hx, hok, hn⟩ := h; exact ⟨x, hx, hok, by simp_all⟩) | (rename_i h2; obtain ⟨x, hx, hok, hn⟩ := h2; exact ⟨x, hx, hok, by simp_all⟩) | (simp_all; done) | grind)
+          · rename_i h
+            split <;> (simp [commits, commitDecision, hr, hc] at h ⊢ <;> first | exact h | (obtain ⟨x, hx, hok, hn⟩ := h; exact ⟨x, hx, hok, by simp_all⟩) | (rename_i h2; obtain ⟨x, hx, hok, hn⟩ := h2; exact ⟨x, hx, hok, by simp_all⟩) | (simp_all; done) | grind)
+        · simp only [hb, Bool.not_false, if_true, bodyErrs]
+          split
+          · rename_i h; (simp [commits, commitDecision, hr, hc] at h ⊢ <;> first | exact h | (obtain ⟨x, hx, hok, hn⟩ := h; exact ⟨x, hx, hok, by simp_all⟩) | (rename_i h2; obtain ⟨x, hx, hok, hn⟩ := h2; exact ⟨x, hx, hok, by simp_all⟩) | (simp_all; done) | grind)
+          · rename_i h
+            split <;> (simp [commits, commitDecision, hr, hc] at h ⊢ <;> first | exact h | (obtain ⟨x, hx, hok, hn⟩ := h; exact ⟨x, hx, hok, by simp_all⟩) | (rename_i h2; obtain ⟨x, hx, hok, hn⟩ := h2; exact ⟨x, hx, hok, by simp_all⟩) | (simp_all; done) | grind)
+      | partialD =>
+        simp only [bodyErrs]
+        split
+        · rename_i h; (simp [commits, commitDecision, hr, hc] at h ⊢ <;> first | exact h | (obtain ⟨x, hx, hok, hn⟩ := h; exact ⟨x, hx, hok, by simp_all⟩) | (rename_i h2; obtain ⟨x, hx, hok, hn⟩ := h2; exact ⟨x, hx, hok, by simp_all⟩) | (simp_all; done) | grind)
+        · rename_i h
+          split <;> (simp [commits, commitDecision, hr, hc] at h ⊢ <;> first | exact h | (obtain ⟨x, hx, hok, hn⟩ := h; exact ⟨x, hx, hok, by simp_all⟩) | (rename_i h2; obtain ⟨x, hx, hok, hn⟩ := h2; exact ⟨x, hx, hok, by simp_all⟩) | (simp_all; done) | grind)
+  · simp [hs, commits]
+
+/-- **C01 (the report decision ignores the header).** Whether a failure report is handed to the bounce
+pipeline for the recipients that failed for good is decided by: somebody failed, the sender is not
+the null address and a bounce pipeline exists, the report can be generated — never by the header of
+the failed message (`Auto-Submitted`, `Precedence`, `List-Id`, … or none at all). -/
+theorem C01_report_decision_ignores_header (h h' : Header) (dsn : Bool) (env : Env)
+    (failed : List Addr) : reportDecision h dsn env failed = reportDecision h' dsn env failed := rfl
+
+theorem C01_report_decision_spec (h : Header) (dsn : Bool) (env : Env) (failed : List Addr) :
+    reportDecision h dsn env failed = true ↔ failed ≠ [] ∧ dsn = true ∧ genOk env failed = true := by
+  unfold reportDecision
+  cases failed <;> cases dsn <;> cases genOk env _ <;> simp
+
+/-- For every header and every duplicate-free pending list the attempt is the one of
+`Model/QueueRestart.lean`. -/
+theorem tryDeliveryND_eq (maxTries : Nat) (k : Kind) (dsn : Bool) (env : Env) (hdr : Header)
+    (p : Plan) (m : MetaN) (hnd : m.to.Nodup) :
+    tryDeliveryND maxTries k dsn env hdr p m = tryDeliveryN maxTries k dsn env p m := by
+  have hev : ∀ f : List Addr, (if reportDecision hdr dsn env f = true then [Ev.report f] else []) =
+      (if (f.isEmpty || !dsn || !genOk env f) = true then [] else [Ev.report f]) := by
+    intro f
+    unfold reportDecision
+    cases f <;> cases dsn <;> cases genOk env _ <;> simp
+  unfold tryDeliveryND tryDeliveryN
+  simp only [dedup_of_nodup m.to hnd, hev]
+
+theorem tryDeliveryN_next_nodup (maxTries : Nat) (k : Kind) (dsn : Bool) (env : Env) (p : Plan)
+    (m m' : MetaN) (hnd : m.to.Nodup) (h : (tryDeliveryN maxTries k dsn env p m).1 = some m') :
+    m'.to.Nodup := by
+  have hc := classify_spec maxTries (deliver k p m.to).1 m.to hnd ⟨m.tries, [], []⟩
+  simp only [List.nil_append] at hc
+  unfold tryDeliveryN at h
+  simp only at h
+  split at h
+  · cases h
+  · split at h
+    · cases h
+    · cases h
+      simp only
+      rw [hc.1]
+      exact hnd.filter _
+
+/-- The life of a message with any header on a duplicate-free envelope is the life `runR` describes. -/
+theorem runRD_eq (maxTries : Nat) (k : Kind) (dsn : Bool) (env : Env) (hdr : Header)
+    (plans : Nat → Plan) (restarts : Nat → Nat) :
+    ∀ (fuel i : Nat) (m : MetaN), m.to.Nodup →
+      runRD maxTries k dsn env hdr plans restarts fuel i m =
+        runR maxTries k dsn env plans restarts fuel i m := by
+  intro fuel
+  induction fuel with
+  | zero => intro i m _; rfl
+  | succ fuel ih =>
+    intro i m hnd
+    have hnd' : (metaFor restarts i m).to.Nodup := by rw [metaFor_eq]; exact hnd
+    simp only [runRD, runR, tryDeliveryND_eq maxTries k dsn env hdr (plans i) _ hnd']
+    cases hres : tryDeliveryN maxTries k dsn env (plans i) (metaFor restarts i m) with
+    | mk om rest =>
+      cases rest with
+      | mk evs b =>
+        cases b with
+        | true => rfl
+        | false =>
+          cases om with
+          | none => rfl
+          | some m' =>
+            have := tryDeliveryN_next_nodup maxTries k dsn env (plans i) _ m' hnd' (by rw [hres])
+            simp only [ih (i + 1) m' this]
+
+/-- **C01 for every header.** Exactly one terminal outcome per recipient, for every header of the
+queued message, every schedule of restarts, every well-formed envelope, every duplicate-free list. -/
+theorem C01_exactly_one_outcome_any_header (maxTries : Nat) (k : Kind) (plans : Nat → Plan)
+    (to : List Addr) (restarts : Nat → Nat) (env : Env) (hdr : Header)
+    (hmt : 0 < maxTries) (hnd : to.Nodup) (hne : to ≠ []) (hw : env.wellFormed to) :
+    let res := runRD maxTries k true env hdr plans restarts maxTries 0 (accepted to)
+    res.2 = false ∧
+    (∀ r ∈ to, (commitCount r res.1 = 1 ∧ reportCount r res.1 = 0) ∨
+               (commitCount r res.1 = 0 ∧ reportCount r res.1 = 1)) ∧
+    (∀ r, r ∉ to → commitCount r res.1 = 0 ∧ reportCount r res.1 = 0) ∧
+    res.1.getLast? = some Ev.removed := by
+  intro res
+  have h : res = runR maxTries k true env plans restarts maxTries 0 (accepted to) :=
+    runRD_eq maxTries k true env hdr plans restarts maxTries 0 (accepted to) hnd
+  rw [h]
+  exact C01_exactly_one_outcome_with_restarts maxTries k plans to restarts env hmt hnd hne hw
+
+/-- The forwarding-target life on a duplicate-free envelope is `runHop`. -/
+theorem runHopD_eq (maxTries : Nat) (tk : TKind) (dsn : Bool) (scripts : Nat → Script)
+    (lr : Addr → Bool) (dom : Addr → Nat) (nd : Nat) :
+    ∀ (fuel i : Nat) (m : Meta), m.to.Nodup →
+      runHopD maxTries tk dsn scripts lr dom nd fuel i m =
+        runHop maxTries tk dsn scripts lr dom nd fuel i m := by
+  intro fuel
+  induction fuel with
+  | zero => intro i m _; rfl
+  | succ fuel ih =>
+    intro i m hnd
+    simp only [runHopD, runHop, tryDeliveryD_eq maxTries tk.kind dsn _ m hnd]
+    cases hres : tryDelivery maxTries tk.kind dsn (hopPlan tk (scripts i) lr dom m.to) m with
+    | mk om evs =>
+      cases om with
+      | none => rfl
+      | some m' =>
+        have hm' : m'.to.Nodup := by
+          have := C01_pending_list_duplicate_free maxTries tk.kind dsn
+            (hopPlan tk (scripts i) lr dom m.to) m m'
+            (by rw [tryDeliveryD_eq maxTries tk.kind dsn _ m hnd, hres])
+          exact this.1
+        simp only [ih (i + 1) m' hm']
+
+/-- The full statement for envelopes that list an address twice (outcomes counted per TRANSACTION
+the downstream committed, not per entry of its recipient list).  Proved: the part from the second
+attempt on (`C01_pending_list_duplicate_free` + the theorems above) and the abort-or-commit decision
+of the first attempt (`C01_deliver_commits_iff`); the first attempt's per-recipient bookkeeping over
+a list with repetitions is tied to the code by the differential runs only. -/
+def C01_exactly_one_outcome_repeated_addresses_stmt : Prop :=
+  ∀ (maxTries : Nat) (k : Kind) (plans : Nat → Plan) (to : List Addr), 0 < maxTries → to ≠ [] →
+    ∀ r ∈ to,
+      let evs := (runRD maxTries k true ⟨true, false, fun _ => false⟩ [] plans (fun _ => 0) maxTries 0
+        (accepted to)).1
+      ((evs.filter (fun e => match e with | .committed rs => rs.contains r | _ => false)).length = 1 ∧
+          reportCount r evs = 0) ∨
+      ((evs.filter (fun e => match e with | .committed rs => rs.contains r | _ => false)).length = 0 ∧
+          reportCount r evs = 1)
+
+/-- Non-vacuity: `[1, 1, 2]`, per-recipient target, everybody fails at the body stage in attempt 0
+(abort, no commit), all fine in attempt 1: one transaction, the address counted once per attempt. -/
+example :
+    let plans : Nat → Plan := fun i =>
+      { start := .ok, rcpt := fun _ => .ok, body := .ok,
+        bodyRc := fun _ => if i = 0 then .temp else .ok, commit := .ok }
+    let evs := (runRD 2 .partialD true ⟨true, false, fun _ => false⟩ [("Auto-Submitted", "auto-replied")]
+      plans (fun _ => 0) 2 0 (accepted [1, 1, 2])).1
+    commits (deliver .partialD (plans 0) [1, 1, 2]).2 = false ∧ attempts evs = 2 ∧
+    commitCount 2 evs = 1 ∧ reportCount 1 evs = 0 ∧ dedup [1, 1, 2, 1] = [1, 2] := by decide
+
+end round9
 
 end MaddyVerif.C01
